@@ -27,8 +27,8 @@ package agreement
 //             regenerating would do).
 //   DETECTED  msgp_gen.go voteTracker: "EquivocatorsCount" not restored (needs two adversary votes
 //             for different values to the same node and step: only the equivocation configuration shows it).
-//   (see report) persistence.go decode: root actor built around a zero player (`makeRootRouter(player{})`):
-//             invisible to 1-3, caught by 4.
+//   DETECTED  persistence.go decode: root actor built around a zero player (`makeRootRouter(player{})`):
+//             invisible to clauses 1-3 (the root actor is rebuilt, not persisted), caught by clause 4.
 // Observation (not a violation of the property): actions.go zeroAction() has no case for stageDigest,
 // so decode() would panic on a persisted action list containing a stageDigestAction; no reachable
 // transition emits stageDigest together with an attest action, so such a list is never persisted.
